@@ -125,14 +125,31 @@ def sum_bound(total_f, info_f, total_g, lo_coef, hi_coef, label="sum-bound"):
     return ok
 
 
-def prove_then_assume(label, formula, timeout_ms=20000, heavy=True):
+def prove_then_assume(label, formula, timeout_ms=20000, heavy=True, rewrite=None):
     """a proof step: `formula` is checked under the full path condition; it is recorded as a `lemma` obligation
     and, only if the check succeeded, added as a fact for the steps that follow.  Returns whether it was proved."""
     c = cur()
     ok = c.is_valid_full(zb(formula), timeout_ms)
     c.oblige("lemma", label, formula)
+    import os
+    if os.environ.get("PYVC_DEBUG"):
+        print("prove_then_assume", label, ok, formula.sexpr()[:120])
     if ok:
         c.fact(formula, heavy=heavy)
+        if rewrite is not None:
+            x, y = rewrite
+            if isinstance(x, z3.ExprRef) and not x.eq(zi(y)):
+                c.memo.setdefault("rewrites", []).append((x, zi(y)))
+            return ok
+        # a proved equation  t == u  between an uninterpreted constant and a term also serves as a rewrite rule t -> u
+        f = formula
+        if z3.is_eq(f) and f.num_args() == 2:
+            a, b = f.arg(0), f.arg(1)
+            for x, y in ((a, b), (b, a)):
+                if z3.is_app(x) and x.decl().kind() == z3.Z3_OP_UNINTERPRETED and not x.eq(y) \
+                        and x.sexpr() not in y.sexpr():
+                    c.memo.setdefault("rewrites", []).append((x, y))
+                    break
     return ok
 
 
